@@ -376,6 +376,26 @@ func runDrv3(c *Ctx) {
 		if isDefer {
 			// deferred Done runs after the store anyway, but must be registered after (= run before) the deferred close? order: defers run LIFO
 			c.Pass("producer: wg.Done deferred", done.Pos(), "wg.Done is deferred (runs after the store)")
+			// … registered before anything can return
+			early := cfgQuery{avoid: func(in ssa.Instruction) bool { return in == ssa.Instruction(done) }, goal: func(in ssa.Instruction) bool {
+				_, isRet := in.(*ssa.Return)
+				return isRet
+			}}.firstHit(prod.Blocks[0], 0)
+			c.Check(early == nil, "producer: wg.Done on every exit", done.Pos(), "%s", map[bool]string{true: "the deferred wg.Done is registered before any return of the producer", false: "the producer can return before its wg.Done is registered: Rows.Close waits forever"}[early == nil])
+		} else {
+			// every way out of the producer passes wg.Done
+			early := cfgQuery{avoid: func(in ssa.Instruction) bool {
+				cs, ok := in.(ssa.CallInstruction)
+				return ok && isWG(cs, "Done")
+			}, goal: func(in ssa.Instruction) bool {
+				_, isRet := in.(*ssa.Return)
+				return isRet
+			}}.firstHit(prod.Blocks[0], 0)
+			where := ""
+			if early != nil {
+				where = p.Pos(early.Pos())
+			}
+			c.Check(early == nil, "producer: wg.Done on every exit", done.Pos(), "%s", map[bool]string{true: "every return of the producer comes after wg.Done", false: "the producer returns at " + where + " without having called wg.Done (it is not deferred): Rows.Close — and with it the connection, the file handle and database/sql's cancel watcher — waits forever"}[early == nil])
 		}
 	}
 	// close is deferred (DRV-2) ⇒ runs after the store; a non-deferred close must come after the store
